@@ -265,6 +265,14 @@ def duration_stub(m: core.Mod, years: int, months: int, total_us: int, record):
             t = st.targets[0] if isinstance(st, ast.Assign) else st.target
             if isinstance(t, ast.Name):
                 fields[t.id] = st.value.value
+        elif isinstance(st, (ast.Assign, ast.AnnAssign)) and st.value is not None:
+            # a class-level table of the analysed class (names of accessors, ...): evaluated, not executed
+            t = st.targets[0] if isinstance(st, ast.Assign) else st.target
+            if isinstance(t, ast.Name):
+                try:
+                    fields[t.id] = minieval.ev(st.value, dict(fields), {"$globals": minieval.module_consts(m)})
+                except Exception:       # noqa: BLE001 - not a table of constants: reading it is Unsupported
+                    pass
     sg = -1 if total_us < 0 else 1
     a = abs(total_us)
     days = a // 10**6 // 86400 * sg
@@ -327,8 +335,11 @@ def _duration_tabulate(ctx, m: core.Mod) -> bool:
                     if (b.get("years", 0), b.get("months", 0), us) != (years, months, t):
                         bad.setdefault(name, f"for years={years} months={months} and {t} microseconds {name} rebuilds with "
                                              f"{ {p: v for p, v in b.items() if v} }: years={b.get('years', 0)} months={b.get('months', 0)} and {us} microseconds")
-    except (core.Unsupported, KeyError, TypeError, AttributeError, ValueError, ZeroDivisionError, RecursionError):
+    except (core.Unsupported, KeyError, TypeError, AttributeError, ValueError, ZeroDivisionError, RecursionError) as e:
+        ctx.unverified("STATE-COMPLETE.tabulated", "Duration.__reduce__ / __deepcopy__", f"outside the checker's interpreter: {type(e).__name__}: {str(e)[:160]}", m.rel)
         return False
+    if not bad:
+        ctx.established(("STATE",), "Duration.", "STATE-COMPLETE.tabulated")
     for name, fn in paths:
         ctx.ob("STATE-COMPLETE.tabulated", f"Duration.{name}", name not in bad,
                bad.get(name, f"the constructor arguments describe the same (years, months, microseconds) on every stub ({n} evaluations in all)"),
@@ -336,8 +347,70 @@ def _duration_tabulate(ctx, m: core.Mod) -> bool:
     return True
 
 
+def _rebuilt_duration_tabulate(ctx, m: core.Mod) -> None:
+    """STATE-COMPLETE.tabulated (whole state): instances of Duration and of AbsoluteDuration are built by the analysed constructor (in the
+    world of rules/durstub.py) from a table of argument tuples, their __reduce__ and __deepcopy__ are evaluated, and the constructor call
+    these produce is evaluated in turn: the instance that comes back must have the same timedelta value (what == compares), the same
+    years, months, weeks, days, seconds and microseconds, and the same sign (invert).  An absolute duration built from a negative amount -
+    what Time.diff() returns for an earlier time - has absolute components and still remembers its sign."""
+    from ..rules import durstub
+    from . import C09
+    keys = ("_native", "_years", "_months", "_weeks", "_remaining_days", "_days", "_seconds", "_microseconds")
+    for cls in ("Duration", "AbsoluteDuration"):
+        if not m.has_cls(cls):
+            continue
+        bad: dict[str, str] = {}
+        n = 0
+        try:
+            w = durstub.World(m, cls)
+            table = [kw for kw in C09.NEW_ARGS if cls == "Duration" or (kw.get("years", 0) >= 0 and kw.get("months", 0) >= 0)]
+            # (the absolute class adds the signed years and months to an absolute number of days: negative ones are not values the library builds)
+            for kw in table:
+                o = w.call("__new__", [w.duration_cls], dict(kw))
+                f0 = vars(o)
+                for name in ("__reduce__", "__deepcopy__"):
+                    if name not in w.meths:
+                        continue
+                    got = w.call(name, [o] + ([{}] if name == "__deepcopy__" else []))
+                    if name == "__reduce__":
+                        if isinstance(got, tuple) and len(got) == 2 and got[0] is w.duration_cls:
+                            # the class named in the module instead of the instance's own: a subclass instance comes back as a plain Duration
+                            bad.setdefault(name, f"__reduce__ rebuilds through the class `Duration` instead of self.__class__: "
+                                                 f"{'an absolute duration' if cls != 'Duration' else 'an instance of a subclass'} comes back as another type")
+                            continue
+                        if not (isinstance(got, tuple) and len(got) == 2 and got[0] is w.ctor):
+                            raise core.Unsupported("__reduce__ does not return (self.__class__, args)")
+                        a, k = tuple(got[1]), {}
+                    else:
+                        if not isinstance(got, durstub.Rebuilt):
+                            raise core.Unsupported("__deepcopy__ does not return self.__class__(...)")
+                        a, k = got._args, got._kws
+                    o2 = w.call("__new__", [w.duration_cls, *a], dict(k))
+                    f1 = vars(o2)
+                    n += 1
+                    diff = {x.lstrip("_").replace("native", "timedelta value"): (f0.get(x), f1.get(x)) for x in keys if f0.get(x) != f1.get(x)}
+                    if (f0.get("_total", 0) < 0) != (f1.get("_total", 0) < 0):
+                        diff["invert"] = (f0.get("_total", 0) < 0, f1.get("_total", 0) < 0)
+                    if diff:
+                        bad.setdefault(name, f"{cls}({', '.join(f'{p_}={v}' for p_, v in kw.items())}) comes back through {name} as {cls}({', '.join(map(str, a))}"
+                                             f"{''.join(f', {p_}={v}' for p_, v in k.items())}): " + "; ".join(f"{x}: {v0!r} -> {v1!r}" for x, (v0, v1) in diff.items()))
+        except durstub.ERRORS + (minieval_errors()) as e:
+            ctx.unverified("STATE-COMPLETE.tabulated", f"{cls}.__reduce__", f"outside the checker's interpreter: {type(e).__name__}: {str(e)[:160]}", m.rel)
+            continue
+        for name in ("__reduce__", "__deepcopy__"):
+            if name in w.meths:
+                ctx.ob("STATE-COMPLETE.tabulated", f"{cls}.{name}", name not in bad,
+                       bad.get(name, f"the instance rebuilt from the state has the same timedelta value, components and sign ({n} evaluations)"), m.loc(w.meths[name]))
+
+
+def minieval_errors():
+    from ..rules import minieval
+    return (minieval.Raised, IndexError)
+
+
 def _duration(ctx) -> None:
     m = pmod("duration")
+    ctx.step(_rebuilt_duration_tabulate, ctx, m)
     if _duration_tabulate(ctx, m):
         return
     # deepcopy
